@@ -171,20 +171,23 @@ func runC18(c *Ctx) {
 		c.Check(len(why) == 0, "R2", funcName(wp), wp.Pos(), "lookup and recording of the same digest before answering 'not processed'", strings.Join(why, "; "))
 	}
 	// ---- R3
-	route := p.MustMethod("gossip", "Agent", "route")
+	// the routing decision is part of Send, whether it lives in a helper (route) or inline: described
+	// in Send's own vocabulary (source of the message = msg.From, the agent = a.Self)
+	route := p.MustMethod("gossip", "Agent", "Send")
+	sendRg := p.RegionOf(route, 2)
 	each := p.MustMethod("gossip", "Topology", "Each")
 	{
 		var why []string
-		calls := callsIn(route, func(k *ssa.CallCommon) bool { return k.StaticCallee() == each })
+		calls := sendRg.Calls(func(k *ssa.CallCommon) bool { return k.StaticCallee() == each })
 		if len(calls) != 1 {
-			why = append(why, "route does not select its destinations with Topology.Each")
+			why = append(why, "Send does not select its destinations with Topology.Each")
 		} else {
-			ex, ok := callCommon(calls[0]).Args[2].(*ssa.Alloc)
+			ex, ok := callCommon(calls[0].in).Args[2].(*ssa.Alloc)
 			hasSelf, hasSrc := false, false
 			if ok {
 				_, bf := p.storesTo(ex)
 				for _, v := range bf["L"] {
-					t := p.TermOf(v)
+					t := sendRg.Term(calls[0].site, v)
 					anyElem := func(x *Term, pred func(*Term) bool) bool {
 						if x.Op != "list" {
 							return false
@@ -201,7 +204,7 @@ func runC18(c *Ctx) {
 					}) {
 						hasSelf = true
 					}
-					if t.Has(func(x *Term) bool { return anyElem(x, func(e *Term) bool { return e.IsParam(route, 1) }) }) {
+					if t.Has(func(x *Term) bool { return anyElem(x, func(e *Term) bool { return e.IsField("From", isParam(route, 1)) }) }) {
 						hasSrc = true
 					}
 				}
